@@ -368,18 +368,19 @@ def oracle(ctx, seeds, scale):
     res, names = _CACHE[key] if key in _CACHE and scale == 1 else _run(ctx, False, scale)
     st = L.merge_jobs(list(res), None, r)
     st.into(r)
-    # observation only (outside the domain): the proviso read literally speaks of a body that STARTS with a brace;
-    # a body that starts with a line break and then a brace is read as an environment argument as well
+    # recorded finding F19: the proviso speaks of a body that STARTS with a brace/bracket; a body that starts with
+    # blanks (at most one line break) and THEN a brace/bracket is read as an environment argument as well
+    # (read_args skips one spacer token), so it is not kept verbatim and an unbalanced one is a parse error
     kept = 0
     for name in BUILTIN:
-        body = '\n{x}\n'
-        src = '\\begin{%s}%s\\end{%s}' % (name, body, name)
-        line, soup, exc = common.impl_parse(src, 0, ())
-        if soup is not None:
-            e = _envs(soup, name)
-            if e and not e[0].args and len(e[0]._contents) == 1 and str(e[0]._contents[0]) == body:
+        for body in ('\n{x}\n', ' [y] z', '\n{\n'):
+            x = _blank_opener_probe(name, body)
+            r.count(('f19', name, body), True)
+            if x is None:
                 kept += 1
-    r.stats['probe_body_linebreak_then_brace_kept_verbatim'] = '%d of %d' % (kept, len(BUILTIN))
+            else:
+                r.fail('verbatim-arg-after-blank', x, input='\\begin{%s}%s\\end{%s}' % (name, body, name))
+    r.stats['probe_body_blank_then_opener_kept_verbatim'] = '%d of %d' % (kept, 3 * len(BUILTIN))
     r.exhaustive = True
     r.rule = ('no exception; exactly the expected environments named `name`, each with no arguments and a single text '
               'child equal to the body (up to the FIRST \\end{name}); str(env) and str(soup) exact; find_all counts of 15 '
@@ -390,7 +391,28 @@ def oracle(ctx, seeds, scale):
     return r
 
 
+def _blank_opener_probe(name, body):
+    """None if the body is kept as a single uninterpreted text, else what happened."""
+    src = '\\begin{%s}%s\\end{%s}' % (name, body, name)
+    line, soup, exc = common.impl_parse(src, 0, ())
+    if soup is None:
+        return 'parse error %s on a verbatim body that starts with blanks + opener' % line
+    e = _envs(soup, name)
+    if e and not e[0].args and len(e[0]._contents) == 1 and str(e[0]._contents[0]) == body:
+        return None
+    return 'body %r is not kept verbatim: the group after the blanks is read as an environment argument' % body
+
+
 def replay_known(ctx, k):
+    if k.get('key') == 'verbatim-arg-after-blank':
+        src = common.dec(k['input'])
+        import re
+        m = re.match(r'\\begin\{([^}]*)\}(.*)\\end\{', src, re.S)
+        return m is not None and _blank_opener_probe(m.group(1), m.group(2)) is not None
+    return _replay_known_other(ctx, k)
+
+
+def _replay_known_other(ctx, k):
     s = common.dec(k['input'])
     skip = tuple(common.dec(x) for x in k.get('skip', '').split(',') if x)
     return common.impl_parse(s, 0, skip)[1] is None
